@@ -3,7 +3,7 @@
    sum_{i,j} |u_i v_j - u_j v_i|^2 = 2 (|u|^2 |v|^2 - |<u,v>|^2).
    With psi = |0>_k u + |1>_k v this is 4 * sum_{i<j}|...|^2 = 2 (1 - Tr rho_k^2) for unit vectors. *)
 From mathcomp Require Import all_ssreflect all_algebra.
-From QV Require Import Lagrange.
+From QV Require Import Lagrange MeyerWallach.
 Set Implicit Arguments. Unset Strict Implicit. Unset Printing Implicit Defensive.
 Import GRing.Theory.
 Local Open Scope ring_scope.
@@ -13,3 +13,17 @@ Theorem C20_lagrange : forall (F : fieldType) (conj : {rmorphism F -> F}) (n : n
   = A conj u * B conj v + A conj u * B conj v - (S conj u v * Sc conj u v + S conj u v * Sc conj u v).
 Proof. exact: lagrange_full. Qed.
 Print Assumptions C20_lagrange.
+
+(* the per-qubit quantity the code computes (sum over i < j only): 2 D = 2 (A B - S Sc) *)
+Theorem C20_mw_per_qubit : forall (F : fieldType) (conj : {rmorphism F -> F}) (n : nat) (u v : 'I_n -> F),
+  D conj u v + D conj u v
+  = A conj u * B conj v + A conj u * B conj v - (S conj u v * Sc conj u v + S conj u v * Sc conj u v).
+Proof. move=> F conj n u v. exact: mw_per_qubit. Qed.
+Print Assumptions C20_mw_per_qubit.
+
+(* purity form: with A + B = 1 (unit vector), 1 - Tr rho^2 = 2 (A B - S Sc) where Tr rho^2 = A^2 + B^2 + 2 S Sc; together:
+   4 D = 2 (1 - Tr rho_k^2), so (4/n) sum_k D_k = 2 (1 - (1/n) sum_k Tr rho_k^2) *)
+Theorem C20_purity_form : forall (F : fieldType) (a b s sc : F), a + b = 1 ->
+  1 - (a * a + b * b + (s * sc + s * sc)) = (a * b + a * b) - (s * sc + s * sc).
+Proof. move=> F a b s sc. exact: purity_form. Qed.
+Print Assumptions C20_purity_form.
